@@ -300,5 +300,22 @@ PROPS["C16"] = dict(
     assumptions=["gqlparser.LoadSchema decides validity and meaning of the generated SDL (invalid ones are dropped and counted)"],
 )
 
+PROPS["C17"] = dict(
+    pkg="c17", race=False, level="exploration", prepare="gen_tool",
+    env={"VF_SHRINKTIME": "90s"},
+    quick=dict(shards=16, timeout=1500), thorough=dict(shards=16, timeout=7200),
+    claim="property-based testing of the generator: rapid draws schemas from the SDL grammar (half of them with the naming pool of Go "
+          "keywords, predeclared identifiers, initialisms, leading/trailing/embedded underscores, enum values and type names that "
+          "normalise to the same identifier; 1-3 files with extensions; executable and type-system directive locations) and option "
+          "vectors over every documented boolean option, both exec layouts, three resolver layouts, worker_limit and random per-field "
+          "resolver: true; each case runs gqlgen's generator from /repo's working tree in its own process, then go build and go vet of "
+          "executor, models, resolver stubs and stub file; a non-zero exit, a panic, or a compile/vet error is a violation",
+    note="96 (quick) / 800 (thorough) points in an enormous space, weighted towards the listed naming patterns; shrinking re-generates",
+    technique="property-based testing (rapid) with grammar-based schema generation; oracle = generator exit status + Go type checker",
+    rule="evaluation = one generation + build + vet; non-trivial = the schema uses >=3 of: interface-implements-interface, union, recursive "
+         "input, default value, applied custom directive, subscription, multi-file extension, hostile naming pool; distinct by SDL+config",
+    assumptions=["gqlparser.LoadSchema decides which generated SDL is a valid schema", "two field names of one type that normalise to one Go identifier are outside the claim"],
+)
+
 # properties deliberately not claimed (reason); anything else missing from PROPS is "not built yet"
 NOT_CLAIMED = {}
